@@ -1,6 +1,7 @@
 """Shared rendered fragments: extracted basic types and the trusted stand-ins several units need."""
 
 HEADER = '''// GENERATED on every run by /verif/vc from /repo's working tree -- do not edit
+#![feature(allocator_api)]
 #![allow(unused_imports, dead_code, unused_variables, unused_mut, non_upper_case_globals, unused_parens, unused_braces)]
 use vstd::prelude::*;
 use core::cmp::Ordering;
